@@ -21,7 +21,8 @@
       every row is rejected and the f64 branch is never reached.
     * src/engine/core/write/column_group_builder.rs, column_writer.rs: physical type per declared
       kind (int/datetime -> I64, u64 -> U64, float -> F64, bool -> Bool, string/enum -> var-bytes);
-      a cell that does not parse is a null bit, var-bytes have no nulls (null/absent -> ""). *)
+      a cell that does not parse is a null bit, var-bytes have no nulls (null/absent -> "");
+      a zone in which the field is absent from EVERY row gets no block at all. *)
 From Coq Require Import ZArith NArith List Bool.
 From Snel Require Import Base.Bytes Model.Time Model.Value Model.Expr Model.Sem.
 Import ListNotations.
@@ -55,8 +56,16 @@ Definition to_cell (k : kind) (v : value) : cell :=
 
 Definition mem_get (sch : schema) (r : row) (f : bytes) : mval :=
   match lookup sch r f with Some (_, v) => to_mem v | None => MAbsent end.
-Definition seg_get (sch : schema) (r : row) (f : bytes) : option cell :=
-  match lookup sch r f with Some (d, v) => Some (to_cell (f_kind d) v) | None => None end.
+(** [hollow f]: the field is absent from every row of the zone — the flush then writes no column
+    block for it in that zone and every accessor answers None (a null or an absent cell in a zone
+    that has the column reads as null / ""). *)
+Definition seg_get (sch : schema) (hollow : bytes -> bool) (r : row) (f : bytes) : option cell :=
+  if hollow f then None
+  else match lookup sch r f with Some (d, v) => Some (to_cell (f_kind d) v) | None => None end.
+Definition is_absent (sch : schema) (r : row) (f : bytes) : bool :=
+  match lookup sch r f with Some (_, VAbsent) => true | _ => false end.
+Definition hollow_in (sch : schema) (rows : list event) (f : bytes) : bool :=
+  forallb (fun ev => is_absent sch (ev_row ev) f) rows.
 
 (** ** The conditions [add_where_clause] builds *)
 Inductive lop := LAnd | LOr | LNot.
@@ -256,8 +265,8 @@ Definition filter_mem (sch : schema) (q : query) (ev : event) : option bool :=
   | Some true => Some (ctx_ok q ev)
   | r => r
   end.
-Definition filter_seg (sch : schema) (q : query) (ev : event) : option bool :=
-  match conj (eval_seg_top (seg_get sch (ev_row ev))) (where_conds q) with
+Definition filter_seg (sch : schema) (q : query) (zrows : list event) (ev : event) : option bool :=
+  match conj (eval_seg_top (seg_get sch (hollow_in sch zrows) (ev_row ev))) (where_conds q) with
   | Some true => Some (ctx_ok q ev)
   | r => r
   end.
